@@ -48,7 +48,7 @@ def describe_cfg(cfg):
 # ---------------------------------------------------------------------- fs mutations
 
 OPS = ["create", "create", "overwrite", "append", "truncate", "delete", "rename", "move_disk", "copy",
-       "touch", "swap", "to_dir", "to_link", "mkdir", "rmdir_entry", "same_size_rewrite", "delete_create"]
+       "touch", "swap", "to_dir", "to_link", "mkdir", "rmdir_entry", "same_size_rewrite", "delete_create", "same_second_rewrite"]
 
 
 def _free_name(fs, rng, d, hostile):
@@ -109,6 +109,19 @@ def mutate(fs, rng, nops, hostile=0.15, ops=None, disks=None, maxblocks=5):
                 fs.write(d, sub, e[1][:rng.randint(0 if rng.random() < 0.1 else 1, len(e[1]))], keep_inode=True)
             elif op == "same_size_rewrite":
                 fs.write(d, sub, A.gen_bytes(rng, len(e[1]), "rand"), keep_inode=rng.random() < 0.5)
+            elif op == "same_second_rewrite":
+                # same size, new bytes, new time-stamp inside the SAME second: only the sub-second part tells the versions apart
+                # (0 -> non-zero, non-zero -> 0, or another non-zero value)
+                if len(e[1]) == 0:
+                    continue
+                sec, ns = divmod(e[2], 10**9)
+                for _ in range(8):
+                    ns2 = rng.randint(1, 999_999_999) if (ns == 0 or rng.random() < 0.5) else 0
+                    if ns2 != ns and fs.lookup(d, sub, len(e[1]), sec, ns2) is None:
+                        break
+                else:
+                    continue
+                fs.write(d, sub, A.gen_bytes(rng, len(e[1]), "rand"), mtime_ns=sec * 10**9 + ns2, keep_inode=rng.random() < 0.6)
             elif op == "delete":
                 fs.remove(d, sub)
             elif op == "rename":
